@@ -221,63 +221,92 @@ func aggCase(r *hlib.Rng, s *hlib.Suite) {
 				}
 				return "(AggTable " + hlib.List(dedup(entries)) + ")"
 			}
-		default: // user function with recording
-			rec := []string{}
+		default: // user function: pure and order sensitive; the expected value is computed from the group's values in frame order
+			pureI := func(x []int) int {
+				sum := 0
+				for _, v := range x {
+					sum = sum*31 + v
+				}
+				return sum
+			}
+			pureF := func(x []float64) float64 {
+				acc := 0.0
+				for _, v := range x {
+					acc = acc/2 + v
+				}
+				return acc
+			}
+			pureB := func(x []bool) bool { return len(x) > 0 && x[0] }
+			pureS := func(x []*string) *string {
+				acc := ""
+				for _, v := range x {
+					if v == nil {
+						acc += "<nil>"
+					} else {
+						acc += *v + ";"
+					}
+				}
+				if len(x)%2 == 1 {
+					return &acc
+				}
+				return nil
+			}
 			switch kind {
 			case "int":
-				fn = func(x []int) int {
-					in := make([]interface{}, len(x))
-					sum := 0
-					for i, v := range x {
-						in[i] = v
-						sum = sum*31 + v
-					}
-					rec = append(rec, "("+cellList("int", in)+", "+cInt(sum)+")")
-					return sum
-				}
+				fn = pureI
 			case "float":
-				fn = func(x []float64) float64 {
-					in := make([]interface{}, len(x))
-					acc := 0.0
-					for i, v := range x {
-						in[i] = v
-						acc = acc/2 + v
-					}
-					rec = append(rec, "("+cellList("float", in)+", "+cFloat(acc)+")")
-					return acc
-				}
+				fn = pureF
 			case "bool":
-				fn = func(x []bool) bool {
-					in := make([]interface{}, len(x))
-					for i, v := range x {
-						in[i] = v
-					}
-					res := len(x) > 0 && x[0]
-					rec = append(rec, "("+cellList("bool", in)+", "+cBool(res)+")")
-					return res
-				}
+				fn = pureB
 			default:
 				fn = func(x []*string) *string {
-					in := make([]interface{}, len(x))
-					acc := ""
+					// copy: the slice and the strings must not be kept
+					y := make([]*string, len(x))
 					for i, v := range x {
-						in[i] = cp(v)
-						if v == nil {
-							acc += "<nil>"
-						} else {
-							acc += *v + ";"
-						}
+						y[i] = cp(v)
 					}
-					var res *string
-					if len(x)%2 == 1 {
-						res = &acc
-					}
-					rec = append(rec, "("+cellList("string", in)+", "+cStr(cp(res))+")")
-					return res
+					return pureS(y)
 				}
 			}
 			descr = "userfn"
-			coq = func() string { return "(AggTable " + hlib.List(dedup(rec)) + ")" }
+			coq = func() string {
+				entries := []string{}
+				for _, gr := range groups {
+					gv := groupVals(gr)
+					var exp string
+					switch kind {
+					case "int":
+						x := make([]int, len(gv))
+						for i, v := range gv {
+							x[i] = v.(int)
+						}
+						exp = cInt(pureI(x))
+					case "float":
+						x := make([]float64, len(gv))
+						for i, v := range gv {
+							x[i] = v.(float64)
+						}
+						exp = cFloat(pureF(x))
+					case "bool":
+						x := make([]bool, len(gv))
+						for i, v := range gv {
+							x[i] = v.(bool)
+						}
+						exp = cBool(pureB(x))
+					default:
+						x := make([]*string, len(gv))
+						for i, v := range gv {
+							x[i] = v.(*string)
+						}
+						exp = cStr(pureS(x))
+					}
+					entries = append(entries, "("+cellList(kind, gv)+", "+exp+")")
+				}
+				if len(entries) == 0 {
+					return "AggOpen"
+				}
+				return "(AggTable " + hlib.List(dedup(entries)) + ")"
+			}
 		}
 		col := c.name
 		if malformed && r.Chance(1, 6) {
